@@ -193,6 +193,19 @@ func (ls *loopScan) scan(fn *ssa.Function, blocks map[*ssa.BasicBlock]bool, dept
 					if c.Pure {
 						continue
 					}
+					if !c.Extern && !c.Trusted && !c.ModAll {
+						// the callee writes only what its modifies clause names (and fresh cells): the heap keys of
+						// those locations, computed on placeholder arguments of the parameter types
+						ks, ok := vc.modifiesKeys(callee, c)
+						if ok {
+							ls.keys["$alloc"] = true
+							for _, k := range ks {
+								ls.keys[k] = true
+								ls.pend = append(ls.pend, pendingWrite{key: k, deep: true})
+							}
+							continue
+						}
+					}
 					if (c.Extern || c.Trusted) && !c.ModAll {
 						if len(c.Modifies) == 0 {
 							continue
@@ -252,9 +265,7 @@ func (ls *loopScan) entryVal(v ssa.Value, st *state) (Val, bool, bool) { // valu
 		if b.Loc == nil {
 			return Val{}, false, false
 		}
-		l := *b.Loc
-		l.Path = append(append([]int{}, b.Loc.Path...), x.Field)
-		return Val{Typ: x.Type(), Loc: &l}, false, true
+		return Val{Typ: x.Type(), Loc: vc.extend(b.Loc, x.Field)}, false, true
 	case *ssa.IndexAddr:
 		b, isNew, ok := ls.entryVal(x.X, st)
 		if !ok || isNew {
@@ -339,6 +350,7 @@ func (vc *VC) analyzeLoop(fr *frame, h *ssa.BasicBlock, st *state) loopInfo {
 func (vc *VC) loopHeader(fr *frame, h *ssa.BasicBlock, st *state, ord int) {
 	li := vc.analyzeLoop(fr, h, st)
 	invs := vc.loopInvariants(fr, ord)
+	fr.loopEntry[h] = st.heap.clone()
 	pos := vc.pos(fr, firstPos(h))
 	if fr.depth > 0 && len(invs) == 0 {
 		vc.errorf("%s: loop %d in inlined function has no invariant (give the function a contract)", fr.fn.Name(), ord)
@@ -463,6 +475,47 @@ func (vc *VC) loopHeader(fr *frame, h *ssa.BasicBlock, st *state, ord int) {
 			}
 		}
 	}
+	// preconditions that mention integer ghosts are universally quantified: instantiate them at the
+	// current index of an index loop
+	if fr.depth == 0 && vc.contract != nil && len(vc.contract.Ghosts) > 0 {
+		for _, phi := range li.phis {
+			if phi.Comment != "rangeindex" {
+				continue
+			}
+			cur := "(+ " + fr.vals[phi].T + " 1)"
+			env := vc.specEnv(fr, st, h)
+			changed := false
+			for _, g := range vc.contract.Ghosts {
+				if gv, ok := vc.ghosts[g.Name]; ok && vc.S.sortOf(gv.Typ) == "Int" {
+					env.vars[g.Name] = Val{T: cur, Typ: gv.Typ}
+					changed = true
+				}
+			}
+			if !changed {
+				continue
+			}
+			env.st = &state{reach: st.reach, heap: vc.entryHeap}
+			env.noLocals = true
+			for _, r := range vc.contract.Requires {
+				if t, err := env.evalBool(r.Expr); err == nil {
+					vc.assume(st.reach, t)
+				}
+			}
+			// the loop's invariants hold for every value of the ghosts (they are proved for arbitrary
+			// ones), in particular at the current index
+			ienv := vc.specEnv(fr, st, h)
+			for _, g := range vc.contract.Ghosts {
+				if gv, ok := vc.ghosts[g.Name]; ok && vc.S.sortOf(gv.Typ) == "Int" {
+					ienv.vars[g.Name] = Val{T: cur, Typ: gv.Typ}
+				}
+			}
+			for _, c := range invs {
+				if t, err := ienv.evalBool(c.Expr); err == nil {
+					vc.assume(st.reach, t)
+				}
+			}
+		}
+	}
 	// 3. assume invariants
 	if fr.depth == 0 {
 		for _, g := range vc.frameGoals(fr, vc.contract, st) {
@@ -503,6 +556,15 @@ func (vc *VC) backEdge(fr *frame, from, h *ssa.BasicBlock, cond string, st *stat
 			vc.oblige("frame-inv-preserved", fmt.Sprintf("loop %d: frame condition preserved for %s", ord, g.key), nil, pos, cond, g.goal)
 		}
 	}
+	if fr.depth == 0 && vc.contract != nil && vc.contract.HasPropagates {
+		body := loopBlocks(h)
+		for _, pe := range fr.errCalls {
+			if body[pe.block] {
+				vc.oblige("err-propagation", fmt.Sprintf("loop %d continues only if %s returned no error", ord, pe.what), vc.contract.Propagates, pos, cond,
+					fmt.Sprintf("(not (and %s (not (= (itag %s) 0))))", pe.reach, pe.term))
+			}
+		}
+	}
 	for _, c := range invs {
 		env := vc.specEnv(fr, bst, h)
 		t, err := env.evalBool(c.Expr)
@@ -528,4 +590,41 @@ func (vc *VC) loopInvariants(fr *frame, ord int) []*Clause {
 		}
 	}
 	return r
+}
+
+
+// modifiesKeys: heap keys of the locations a contract's modifies clause denotes.
+func (vc *VC) modifiesKeys(callee *ssa.Function, c *Contract) ([]string, bool) {
+	nl, nd := len(vc.lines), len(vc.errs)
+	env := &SpecEnv{vc: vc, vars: map[string]Val{}, st: &state{reach: "true", heap: Heap{}}, old: Heap{}, contract: c, reach: "true", pkg: vc.eng.specPkg(callee)}
+	for _, p := range callee.Params {
+		n := vc.freshConst("dummy:"+p.Name(), vc.S.sortOf(p.Type()))
+		env.vars[p.Name()] = vc.mkVal(n, p.Type())
+	}
+	env.oldVars = env.vars
+	keys := map[string]bool{}
+	ok := true
+	for _, m := range c.Modifies {
+		ls, err := env.modLocs(m)
+		if err != nil {
+			ok = false
+			break
+		}
+		for _, ml := range ls {
+			keys[ml.key] = true
+		}
+	}
+	// the placeholder evaluation must not leave assumptions behind
+	for i := nl; i < len(vc.lines); i++ {
+		if strings.HasPrefix(vc.lines[i], "(assert") {
+			vc.lines[i] = "(assert true)"
+		}
+	}
+	vc.errs = vc.errs[:nd]
+	var out []string
+	for k := range keys {
+		out = append(out, k)
+	}
+	sort.Strings(out)
+	return out, ok
 }
